@@ -1314,4 +1314,99 @@ example : (fromFrameRun snapIsInstance snapRank [] [⟨[⟨0, .float64, some .fl
 example : (Tab.frame ⟨[[11, 21, 31], [12, 22, 32]], 3⟩).takeRows [2, 0] >>= (·.takeRows [0]) =
     some (.frame ⟨[[31], [32]], 1⟩) := by decide
 
+/-! ### Round 5 — the pass-through branches of `Reader.__call__` / `Reader._cast`
+
+`if indices:` is skipped for `None` (identical names) and `_cast` returns `data` itself when
+`actual == expected`; with identical names and different kinds the dict comprehension runs over the
+entry as it came (no `take_columns`), and leaves every column whose declared kind matches untouched. -/
+section passthrough
+variable {α : Type}
+
+/-- **pass-through** — an entry that already carries the query's schema is handed over as it is: no
+selection, no cast, no copy; whatever the payload (not even rectangular), the match relation, the cast,
+released or repaired code. -/
+theorem C15_passthrough (km : Kind → Kind → Bool) (cast : Kind → α → Option α) (legacy : Bool) (q : List Field)
+    (data : Tab α) : readerCall km cast legacy q q data = .data data := by
+  have hm := (C15_match_identical_iff (q.map (·.name)) (q.map (·.name))).mpr rfl
+  unfold readerCall readerCallWith
+  rw [hm]
+  simp [castStep]
+
+/-- **re-reading is idempotent** — what the reader delivered, labelled with the query's schema and read
+again under the same query, comes back unchanged (the reader is a projection onto the query's schema). -/
+theorem C15_reread (km : Kind → Kind → Bool) (cast : Kind → α → Option α) (legacy : Bool) (q e : List Field)
+    (data out : Tab α) (_h : readerCall km cast legacy q e data = .data out) :
+    readerCall km cast legacy q q out = .data out :=
+  C15_passthrough km cast legacy q out
+
+/-- **same names, same order** — `take_columns` is not called and the entry schema reaches `_cast`
+un-permuted: the outcome is that of `_cast(expected, actual, entry.data)` alone. -/
+theorem C15_same_names (km : Kind → Kind → Bool) (cast : Kind → α → Option α) (legacy : Bool) (q e : List Field)
+    (data : Tab α) (hyp : e.map (·.name) = q.map (·.name)) :
+    readerCall km cast legacy q e data =
+      match castStep km cast (decide (e = q)) q e data with
+      | none => .castError
+      | some out => .data out := by
+  have hm := (C15_match_identical_iff (q.map (·.name)) (e.map (·.name))).mpr hyp
+  unfold readerCall readerCallWith
+  rw [hm]
+  rfl
+
+/-- on that path the released and the repaired reader are the same function (the defect D16 needs a
+re-ordering), for every payload and without any assumption on the outcome. -/
+theorem C15_same_names_legacy_irrelevant (km : Kind → Kind → Bool) (cast : Kind → α → Option α) (q e : List Field)
+    (data : Tab α) (hyp : e.map (·.name) = q.map (·.name)) :
+    readerCall km cast true q e data = readerCall km cast false q e data := by
+  rw [C15_same_names km cast true q e data hyp, C15_same_names km cast false q e data hyp]
+
+/-- **no needless cast** — when every declared kind matches the kind of the entry field zipped with it,
+the dict comprehension of `_cast` never calls `kind.cast` and never raises: the columns are re-labelled
+with the query's names and otherwise the very lists they were. -/
+theorem C15_kinds_match_untouched (km : Kind → Kind → Bool) (cast : Kind → α → Option α) (q e : List Field)
+    (cols : List (List α))
+    (hk : ∀ (j : Nat) (qf ef : Field), q[j]? = some qf → e[j]? = some ef → km qf.kind ef.kind = true) :
+    castColumns km cast q e cols =
+      some (List.zipWith (fun (p : Field × Field) c => (p.1.name, c)) (q.zip e) cols) := by
+  induction q generalizing e cols with
+  | nil => cases e <;> cases cols <;> simp [castColumns]
+  | cons f fs ih =>
+    cases e with
+    | nil => simp [castColumns]
+    | cons a as =>
+      cases cols with
+      | nil => simp [castColumns]
+      | cons c cs =>
+        have h0 : km f.kind a.kind = true := hk 0 f a rfl rfl
+        have ih' := ih as cs (fun j qf ef h1 h2 => hk (j + 1) qf ef (by simpa using h1) (by simpa using h2))
+        simp [castColumns, castColumn, h0, ih']
+
+/-- … hence a request whose columns come in the query's order under kinds that all match is always
+served (no `CastError`, no `MissingError`, whatever the cast would do), and the delivered columns are the
+entry's own column lists. -/
+theorem C15_kinds_match_served (km : Kind → Kind → Bool) (cast : Kind → α → Option α) (legacy : Bool) (q e : List Field)
+    (data : Tab α) (hyp : e.map (·.name) = q.map (·.name))
+    (hk : ∀ (j : Nat) (qf ef : Field), q[j]? = some qf → e[j]? = some ef → km qf.kind ef.kind = true) :
+    ∃ out, readerCall km cast legacy q e data = .data out ∧
+      (e = q → out = data) ∧
+      (e ≠ q → out.toColumns =
+        (List.zipWith (fun (p : Field × Field) c => (p.1.name, c)) (q.zip e) data.toColumns).map (·.2)) := by
+  rw [C15_same_names km cast legacy q e data hyp]
+  by_cases heq : e = q
+  · exact ⟨data, by simp [castStep, heq], fun _ => rfl, fun h => absurd heq h⟩
+  · refine ⟨frameOf (List.zipWith (fun (p : Field × Field) c => (p.1.name, c)) (q.zip e) data.toColumns), ?_,
+      fun h => absurd h heq, fun _ => ?_⟩
+    · simp [castStep, heq, C15_kinds_match_untouched km cast q e data.toColumns hk]
+    · simp [frameOf, Tab.toColumns, Mat.toMajor]
+
+end passthrough
+
+example : readerCall kmatch (fun _ (v : Nat) => some (v + 100)) false [⟨1, .string⟩, ⟨2, .integer⟩] [⟨1, .string⟩, ⟨2, .integer⟩]
+    (.dense ⟨[[5, 7], [6]], 2⟩) = .data (.dense ⟨[[5, 7], [6]], 2⟩) := by decide    -- untouched, even ragged
+example : readerCall kmatch (fun _ (v : Nat) => some (v + 100)) false [⟨1, .string⟩, ⟨2, .integer⟩] [⟨1, .integer⟩, ⟨2, .integer⟩]
+    (.dense ⟨[[5, 7]], 2⟩) = .data (.frame ⟨[[105], [7]], 1⟩) := by decide          -- same names, one kind differs: only it is cast
+example : readerCall kmatch (fun _ (v : Nat) => some (v + 100)) false [⟨1, .date⟩, ⟨2, .integer⟩] [⟨1, .timestamp⟩, ⟨2, .integer⟩]
+    (.dense ⟨[[5, 7]], 2⟩) = .data (.frame ⟨[[5], [7]], 1⟩) := by decide            -- every kind matches: no cell cast
+example : castColumns kmatch (fun _ (_ : Nat) => none) [⟨1, .date⟩, ⟨2, .integer⟩] [⟨8, .timestamp⟩, ⟨9, .integer⟩] [[5], [7]] =
+    some [(1, [5]), (2, [7])] := by decide                                          -- … even under a cast that always raises
+
 end ForML.Entry
